@@ -60,7 +60,7 @@ def summarize(respath, harness, wall):
                     viol[key] = dict(v, count=1)
                 else:
                     viol[key]['count'] += 1
-            if r['status'] == 'ok' and 'inputs' in r and len(samples) < 4000:
+            if r['status'] == 'ok' and 'inputs' in r and not r.get('violations') and len(samples) < 4000:
                 samples.append({'inputs': r['inputs'], 'obs': r.get('obs', [])})
     # NOTE: steps/queries are per-process counters that include the prefix inherited at fork time; we report
     # them as upper bounds of distinct work ("steps_sum"), plus the exact number of paths.
